@@ -30,12 +30,12 @@ Definition default_renders (c : column_def) : bool :=
 
 (* b: baseline table, tn: normalised model table of the same name.  Either the planner sees no
    difference, or every action of the table's group changes a type / nullability / default / comment
-   of an existing column (so: same column names, mutually included normalised constraints), column
-   names are distinct on both sides and the model's defaults render non-empty *)
+   of an existing column (so: same column names, mutually included normalised constraints), the
+   baseline table's column names are distinct and the model's defaults render non-empty *)
 Definition attrs_only (b tn : table_def) : bool :=
   match table_group (t_name b) b tn with
   | [] => true
-  | g => (forallb is_attr_action g && nodup_str (colnames b) && nodup_str (colnames tn)
+  | g => (forallb is_attr_action g && nodup_str (colnames b)
           && forallb default_renders (t_columns tn))%bool
   end.
 Definition unchanged (b tn : table_def) : bool :=
